@@ -53,6 +53,11 @@ func (e *env) lbInner() http.Handler {
 		chk("header X-Multi", strings.Join(r.Header["X-Multi"], ","), strings.Join(sp.hdrs["X-Multi"], ","))
 		body, _ := io.ReadAll(r.Body)
 		chk("body", string(body), sp.body)
+		if _, declared := r.Trailer["X-Trailer"]; declared || r.Header.Get("X-Has-Trailer") != "" {
+			// a chunked upload with a declared trailer: net/http has filled it in
+			// now that the body is at EOF
+			chk("trailer X-Trailer (after body EOF)", r.Trailer.Get("X-Trailer"), "t-"+strconv.Itoa(rid))
+		}
 		ctx := r.Context()
 		if l, ok := slogutil.LoggerFromContext(ctx); !ok {
 			bad = append(bad, fmt.Sprintf("inner handler of request %d has no context logger", rid))
@@ -77,6 +82,22 @@ func (e *env) lbInner() http.Handler {
 		}
 		c.mu.Unlock()
 	})
+}
+
+// trailerBody is a request body of unknown length that sets the declared
+// trailer when it reaches EOF (the client-side convention of net/http).
+type trailerBody struct {
+	r   *strings.Reader
+	hdr http.Header
+	val string
+}
+
+func (t *trailerBody) Read(p []byte) (int, error) {
+	n, err := t.r.Read(p)
+	if err == io.EOF {
+		t.hdr.Set("X-Trailer", t.val)
+	}
+	return n, err
 }
 
 // runLoopback sends real HTTP requests over the loopback interface through
@@ -116,12 +137,24 @@ func runLoopback(res *vh.Result, clients, reqs int) (n int, skipped string) {
 				beh := rnd.IntN(len(loopbackBehaviours))
 				ops := loopbackBehaviours[beh]
 				s := sent{rid: rid, beh: beh}
-				req, err := http.NewRequest(sp.method, srv.URL+sp.target, strings.NewReader(sp.body))
+				var rbody io.Reader = strings.NewReader(sp.body)
+				withTrailer := k%3 == 0
+				var tr *trailerBody
+				if withTrailer {
+					tr = &trailerBody{r: strings.NewReader(sp.body), val: "t-" + strconv.Itoa(rid)}
+					rbody = tr // unknown length: sent chunked, so trailers are possible
+				}
+				req, err := http.NewRequest(sp.method, srv.URL+sp.target, rbody)
 				if err != nil {
 					netMu.Lock()
 					netErr = err.Error()
 					netMu.Unlock()
 					return
+				}
+				if withTrailer {
+					req.Trailer = http.Header{"X-Trailer": nil}
+					req.Header.Set("X-Has-Trailer", "1")
+					tr.hdr = req.Trailer
 				}
 				req.Host = sp.host
 				for hk, hv := range sp.hdrs {
